@@ -10,6 +10,13 @@
   parameter updates, scalar re-wirings, array add/remove and reads of arbitrary nodes (rejected
   calls included; they leave the state alone) that keeps the graph acyclic (`Valid F g0 ops`; like
   the Go API the model has no cycle check, and a cycle makes `Outdated()` recurse forever).
+  GUARD ON PROCESSORS (`ReadsAll g0`): every `Process()` pulls ALL its wired inputs.  The model can
+  express processors that skip inputs (`SNode.reads`); for them the "recompute only on change"
+  clause is FALSE of the code and of the model alike (`skipping_processor_spurious`,
+  `no_spurious_full_false`; known finding C11-skipping-processor), so the hypothesis is not a
+  technicality.  For the freshness theorems it is a limitation of the proof (the invariant used
+  needs an executed node to end up `Processed`); freshness of skipping processors is checked on
+  the implementation by the oracle `c11.holds.fresh`, not proved.
   `valid_fixed_numbering`: histories in which every new connection goes to a node of smaller rank
   in one fixed ranking (e.g. smaller id) are valid.
 -/
@@ -21,9 +28,9 @@ open Nodes
 variable {V : Type} {F : Nat}
 
 /-- the ghost-free inductive invariant (I1 ∧ I2 ∧ guard) holds in every reachable state -/
-theorem reachable_inv (g0 : Graph V) (h0 : Init F g0) (ops : List (Op V)) (hv : Valid F g0 ops) :
+theorem reachable_inv (g0 : Graph V) (h0 : Init F g0) (hra : ReadsAll g0) (ops : List (Op V)) (hv : Valid F g0 ops) :
     Inv F (run F g0 ops).1 :=
-  run_inv h0.inv ops hv
+  run_inv (h0.inv hra) ops hv
 
 /-- `Spec` is evaluation from scratch: it satisfies (and, the dependency relation being
     well-founded, is determined by) the recursive equation that mentions only parameter values,
@@ -45,6 +52,20 @@ theorem outdated_is_outdated (g : Graph V) (hac : Acyclic F g) (i : Nat) :
   obtain ⟨rank, hwf⟩ := hac
   exact Outdated_eq g hwf i
 
+/-- and `Eval` is `Struct.Value()` (`if Outdated() { process() }`), for ANY processor (skipping ones
+    included): `process()` pulls the inputs `reads` selects, stores `fn`, bumps the version,
+    remembers the dependency versions -/
+theorem eval_is_value (g : Graph V) (hac : Acyclic F g) (i : Nat) :
+    Eval F g i = match g i with
+      | .param _ _ => (g, [])
+      | .struct s =>
+        if Outdated F g i then
+          let r := pullM (Eval F) s.reads g s.deps []
+          (r.1.set i (.struct (s.executed r.1 r.2.1)), r.2.2 ++ [(i, s.version + 1)])
+        else (g, []) := by
+  obtain ⟨rank, hwf⟩ := hac
+  exact Eval_eq g hwf i
+
 /-- a sufficient condition for the guard on histories: one ranking for the whole history (for
     instance "every dependency has a smaller id"); the guard itself allows the ranking to change
     from call to call -/
@@ -54,9 +75,9 @@ theorem valid_fixed_numbering (rank : Nat → Nat) (g0 : Graph V) (hwf : Ranked 
 
 /-- **never stale**: after any history, `Value()` of any node returns the from-scratch value of
     the current graph -/
-theorem read_fresh (g0 : Graph V) (h0 : Init F g0) (ops : List (Op V)) (hv : Valid F g0 ops) (i : Nat) :
+theorem read_fresh (g0 : Graph V) (h0 : Init F g0) (hra : ReadsAll g0) (ops : List (Op V)) (hv : Valid F g0 ops) (i : Nat) :
     val (step F (run F g0 ops).1 (.read i)).1 i = Spec F (run F g0 ops).1 i := by
-  have hinv := run_inv h0.inv ops hv
+  have hinv := run_inv (h0.inv hra) ops hv
   obtain ⟨rank, hwf⟩ := hinv.wf
   rw [step_read]
   have hok := Eval_ok i _ hinv
@@ -64,63 +85,66 @@ theorem read_fresh (g0 : Graph V) (h0 : Init F g0) (ops : List (Op V)) (hv : Val
 
 /-- in every reachable state, every node that reports `Processed` holds the from-scratch value
     (so a read that does not execute is fresh as well) -/
-theorem processed_is_fresh (g0 : Graph V) (h0 : Init F g0) (ops : List (Op V)) (hv : Valid F g0 ops) (j : Nat)
+theorem processed_is_fresh (g0 : Graph V) (h0 : Init F g0) (hra : ReadsAll g0) (ops : List (Op V)) (hv : Valid F g0 ops) (j : Nat)
     (hj : Outdated F (run F g0 ops).1 j = false) : val (run F g0 ops).1 j = Spec F (run F g0 ops).1 j :=
-  val_eq_spec (run_inv h0.inv ops hv) hj
+  val_eq_spec (run_inv (h0.inv hra) ops hv) hj
 
 /-- evaluation changes no parameter, processor or wiring, only nodes that were outdated and lie in
     the cone of the node read, and executes only such nodes (I3) -/
-theorem eval_frame (g0 : Graph V) (h0 : Init F g0) (ops : List (Op V)) (hv : Valid F g0 ops) (i : Nat) :
+theorem eval_frame (g0 : Graph V) (h0 : Init F g0) (hra : ReadsAll g0) (ops : List (Op V)) (hv : Valid F g0 ops) (i : Nat) :
     SameStatic (step F (run F g0 ops).1 (.read i)).1 (run F g0 ops).1 ∧
     (∀ k, Outdated F (run F g0 ops).1 k = false → (step F (run F g0 ops).1 (.read i)).1 k = (run F g0 ops).1 k) ∧
     (∀ k, ¬ Reach (run F g0 ops).1 i k → (step F (run F g0 ops).1 (.read i)).1 k = (run F g0 ops).1 k) ∧
     (∀ e ∈ (step F (run F g0 ops).1 (.read i)).2, Reach (run F g0 ops).1 i e.1) := by
-  have hinv := run_inv h0.inv ops hv
+  have hinv := run_inv (h0.inv hra) ops hv
   rw [step_read]
   have hok := Eval_ok i _ hinv
   exact ⟨hok.evo.static, hok.evo.keep, hok.frame, hok.logCone⟩
 
-/-- **a second read executes nothing** (and changes nothing) -/
-theorem reads_idempotent (g0 : Graph V) (h0 : Init F g0) (ops : List (Op V)) (hv : Valid F g0 ops) (i : Nat) :
+/-- **a second read executes nothing** (and changes nothing) — for processors that read all their
+    wired inputs (`ReadsAll`; proved part of `C11_no_spurious_full`, which is false without it) -/
+theorem reads_idempotent (g0 : Graph V) (h0 : Init F g0) (hra : ReadsAll g0) (ops : List (Op V)) (hv : Valid F g0 ops) (i : Nat) :
     step F (step F (run F g0 ops).1 (.read i)).1 (.read i) = ((step F (run F g0 ops).1 (.read i)).1, []) := by
-  have hinv := run_inv h0.inv ops hv
+  have hinv := run_inv (h0.inv hra) ops hv
   rw [step_read, step_read]
   have hok := Eval_ok i _ hinv
   obtain ⟨rank', hwf'⟩ := hok.inv.wf
-  rw [Eval_eq _ hwf']
+  rw [Eval_eq_all _ hwf' hok.inv.readsAll]
   cases hs : (Eval F (run F g0 ops).1 i).1 i with
   | param x v => rfl
   | struct s => simp [hok.fresh]
 
 /-- a node executes during a read only if it was outdated, and it is processed afterwards -/
-theorem exec_only_if_outdated (g0 : Graph V) (h0 : Init F g0) (ops : List (Op V)) (hv : Valid F g0 ops) (i : Nat)
+theorem exec_only_if_outdated (g0 : Graph V) (h0 : Init F g0) (hra : ReadsAll g0) (ops : List (Op V)) (hv : Valid F g0 ops) (i : Nat)
     (e : Nat × Nat) (he : e ∈ (step F (run F g0 ops).1 (.read i)).2) :
     Outdated F (run F g0 ops).1 e.1 = true ∧ Outdated F (step F (run F g0 ops).1 (.read i)).1 e.1 = false := by
-  have hinv := run_inv h0.inv ops hv
+  have hinv := run_inv (h0.inv hra) ops hv
   rw [step_read] at he ⊢
   exact ⟨(Eval_ok i _ hinv).logOut e he, executed_fresh hinv i e he⟩
 
-/-- **recompute only on change**: once node `j` is processed (in particular right after it
+/-- **recompute only on change** — for processors that read all their wired inputs (`ReadsAll`;
+    proved part of `C11_no_spurious_full`): once node `j` is processed (in particular right after it
     executed), no history that neither updates a parameter in `j`'s dependency cone nor re-wires a
     node of that cone (`j` itself included) executes `j` again, whatever is read, and `j` stays
     processed -/
-theorem exec_only_if_changed (g0 : Graph V) (h0 : Init F g0) (ops : List (Op V)) (hv : Valid F g0 ops) (j : Nat)
+theorem exec_only_if_changed (g0 : Graph V) (h0 : Init F g0) (hra : ReadsAll g0) (ops : List (Op V)) (hv : Valid F g0 ops) (j : Nat)
     (hj : Outdated F (run F g0 ops).1 j = false) (ops2 : List (Op V)) (hv2 : Valid F (run F g0 ops).1 ops2)
     (hq : Untouched F (run F g0 ops).1 ops2 j) :
     cnt (run F (run F g0 ops).1 ops2).2 j = 0 ∧ Outdated F (run F (run F g0 ops).1 ops2).1 j = false := by
-  have := untouched_run (run_inv h0.inv ops hv) hj ops2 hv2 hq
+  have := untouched_run (run_inv (h0.inv hra) ops hv) hj ops2 hv2 hq
   exact ⟨this.2, this.1⟩
 
-/-- the same, from execution to execution: if `j` executed in a read and the following history
+/-- the same, from execution to execution, again for processors that read all their wired inputs
+    (`ReadsAll`): if `j` executed in a read and the following history
     `ops2` (any reads included) does not touch `j`'s cone, `j` does not execute in `ops2` -/
-theorem reexecution_needs_change (g0 : Graph V) (h0 : Init F g0) (ops : List (Op V)) (hv : Valid F g0 ops) (i j : Nat)
+theorem reexecution_needs_change (g0 : Graph V) (h0 : Init F g0) (hra : ReadsAll g0) (ops : List (Op V)) (hv : Valid F g0 ops) (i j : Nat)
     (hex : 0 < cnt (step F (run F g0 ops).1 (.read i)).2 j) (ops2 : List (Op V))
     (hv2 : Valid F (step F (run F g0 ops).1 (.read i)).1 ops2)
     (hq : Untouched F (step F (run F g0 ops).1 (.read i)).1 ops2 j) :
     cnt (run F (step F (run F g0 ops).1 (.read i)).1 ops2).2 j = 0 := by
-  have hinv := run_inv h0.inv ops hv
+  have hinv := run_inv (h0.inv hra) ops hv
   obtain ⟨e, he, hej⟩ := cnt_pos_mem hex
-  have hf := (exec_only_if_outdated g0 h0 ops hv i e he).2
+  have hf := (exec_only_if_outdated g0 h0 hra ops hv i e he).2
   rw [hej] at hf
   have hac : Acyclic F (step F (run F g0 ops).1 (.read i)).1 := step_acyclic_of_not_rewire hinv.wf _ (.inl ⟨i, rfl⟩)
   exact (untouched_run (step_inv hinv _ hac) hf ops2 hv2 hq).2
@@ -128,31 +152,31 @@ theorem reexecution_needs_change (g0 : Graph V) (h0 : Init F g0) (ops : List (Op
 /-- **version = number of executions**: along every history the version of every node grows by
     exactly the number of its executions in the log plus, for a parameter, the number of accepted
     updates — and by nothing else -/
-theorem version_counts_executions (g0 : Graph V) (h0 : Init F g0) (ops : List (Op V)) (hv : Valid F g0 ops) (k : Nat) :
+theorem version_counts_executions (g0 : Graph V) (h0 : Init F g0) (hra : ReadsAll g0) (ops : List (Op V)) (hv : Valid F g0 ops) (k : Nat) :
     ver (run F g0 ops).1 k = ver g0 k + cnt (run F g0 ops).2 k + setCount F g0 ops k :=
-  version_run h0.inv ops hv k
+  version_run (h0.inv hra) ops hv k
 
 /-- for a struct node the version counts its executions and nothing else -/
-theorem struct_version_counts_executions (g0 : Graph V) (h0 : Init F g0) (ops : List (Op V)) (hv : Valid F g0 ops)
+theorem struct_version_counts_executions (g0 : Graph V) (h0 : Init F g0) (hra : ReadsAll g0) (ops : List (Op V)) (hv : Valid F g0 ops)
     (k : Nat) (s : SNode V) (hk : g0 k = .struct s) :
     ver (run F g0 ops).1 k = s.version + cnt (run F g0 ops).2 k := by
-  rw [version_run h0.inv ops hv k, setCount_struct g0 ops k (by simp [hk, isParam])]
+  rw [version_run (h0.inv hra) ops hv k, setCount_struct g0 ops k (by simp [hk, isParam])]
   simp [ver, hk]
 
 /-- one step: +1 per execution, +1 for an accepted `Set` of that parameter, otherwise unchanged -/
-theorem version_step_exact (g0 : Graph V) (h0 : Init F g0) (ops : List (Op V)) (hv : Valid F g0 ops) (op : Op V)
+theorem version_step_exact (g0 : Graph V) (h0 : Init F g0) (hra : ReadsAll g0) (ops : List (Op V)) (hv : Valid F g0 ops) (op : Op V)
     (k : Nat) :
     ver (step F (run F g0 ops).1 op).1 k
       = ver (run F g0 ops).1 k + cnt (step F (run F g0 ops).1 op).2 k + bumps (run F g0 ops).1 op k :=
-  version_step (run_inv h0.inv ops hv) op k
+  version_step (run_inv (h0.inv hra) ops hv) op k
 
 /-- the index `sn.depVersions[i]` in `Outdated()` never panics: whenever the flag is clear the
     remembered list has one entry per dependency (and each is `≤` the dependency's version) -/
-theorem remembered_length (g0 : Graph V) (h0 : Init F g0) (ops : List (Op V)) (hv : Valid F g0 ops) (i : Nat)
+theorem remembered_length (g0 : Graph V) (h0 : Init F g0) (hra : ReadsAll g0) (ops : List (Op V)) (hv : Valid F g0 ops) (i : Nat)
     (s : SNode V) (rv : List Nat) (hs : (run F g0 ops).1 i = .struct s) (hr : s.remembered = some rv)
     (hf : s.flag = false) :
     rv.length = s.deps.length ∧ All2 (fun d r => r ≤ ver (run F g0 ops).1 d) s.deps rv := by
-  have h := (run_inv h0.inv ops hv).rem i s rv hs hr hf
+  have h := (run_inv (h0.inv hra) ops hv).rem i s rv hs hr hf
   exact ⟨h.length_eq.symm, h⟩
 
 /-- the executable cone used by the driver's `no_spurious` oracle is the cone `Reach` of the theorems -/
@@ -206,6 +230,77 @@ example : outdatedEnum (fun _ => (.param 0 3 : Node Nat))
       remembered := some ([0, 1].map (ver (fun _ => (.param 0 3 : Node Nat)))), flag := false } [1, 0] = false := by
   decide
 
+/-! ### processors that skip a wired input: the clause "recompute only on change" is false -/
+
+/-- the clause without the guard on processors: a second read executes nothing, for every
+    processor (the conjunct `reads_idempotent` proves under `ReadsAll`) -/
+def C11_no_spurious_full : Prop :=
+  ∀ (F : Nat) (g0 : Graph Nat), Init F g0 → ∀ (ops : List (Op Nat)), Valid F g0 ops → ∀ i : Nat,
+    step F (step F (run F g0 ops).1 (.read i)).1 (.read i) = ((step F (run F g0 ops).1 (.read i)).1, [])
+
+/-- X = node 0 (parameter, value 0), node 1 a parameter, Y = node 2 (struct over node 1),
+    A = node 3 with ports (X, Y): `Process()` reads X, and reads Y only when X > 0 -/
+def skipG : Graph Nat := fun i =>
+  match i with
+  | 0 => .param 0 0
+  | 1 => .param 7 0
+  | 2 => .struct { fn := fun _ _ vs => vs.foldl (· + ·) 1, scalars := [some 1], arrays := [], cache := 0,
+                   version := 0, remembered := none, flag := false }
+  | 3 => .struct { fn := fun _ _ vs => match vs with
+                            | [x, y] => if x > 0 then x + y + 1 else x + 1
+                            | _ => 0,
+                   reads := fun acc => match acc with
+                            | [x] => decide (x > 0)
+                            | _ => true,
+                   scalars := [some 0, some 2], arrays := [], cache := 0,
+                   version := 0, remembered := none, flag := false }
+  | _ => .param 0 0
+
+theorem skipG_init : Init 4 skipG := by
+  refine ⟨⟨fun i => if i < 4 then i else 0, ?_, ?_⟩, ?_⟩
+  · intro i; dsimp only; split <;> omega
+  · intro i s hs d hd
+    match i with
+    | 0 | 1 => simp [skipG] at hs
+    | 2 | 3 =>
+      simp only [skipG, Node.struct.injEq] at hs
+      subst hs
+      simp [SNode.deps] at hd
+      have hd4 : d < 4 := by omega
+      simp only [hd4, if_true, show (2:Nat) < 4 by omega, show (3:Nat) < 4 by omega]
+      omega
+    | n+4 => simp [skipG] at hs
+  · intro i s hs
+    match i with
+    | 0 | 1 => simp [skipG] at hs
+    | 2 | 3 =>
+      simp only [skipG, Node.struct.injEq] at hs
+      subst hs
+      rfl
+    | n+4 => simp [skipG] at hs
+
+/-- **known finding C11-skipping-processor, in the model of the code**: five idle reads of A — no
+    parameter update, no re-wiring in between — execute A five times and take its version from 0
+    to 5; Y, which `Process()` never pulls while X ≤ 0, is never executed and stays `Stale`, and
+    `dep.State() != Processed` keeps A outdated.  The values stay correct (`= Spec`). -/
+theorem skipping_processor_spurious :
+    (run 4 skipG [.read 3, .read 3, .read 3, .read 3, .read 3]).2 = [(3, 1), (3, 2), (3, 3), (3, 4), (3, 5)] ∧
+    ver (run 4 skipG [.read 3, .read 3, .read 3, .read 3, .read 3]).1 3 = 5 ∧
+    Outdated 4 (run 4 skipG [.read 3, .read 3, .read 3, .read 3, .read 3]).1 3 = true ∧
+    Outdated 4 (run 4 skipG [.read 3, .read 3, .read 3, .read 3, .read 3]).1 2 = true ∧
+    val (run 4 skipG [.read 3, .read 3, .read 3, .read 3, .read 3]).1 3
+      = Spec 4 (run 4 skipG [.read 3, .read 3, .read 3, .read 3, .read 3]).1 3 := by decide
+
+/-- hence the unguarded clause is false -/
+theorem no_spurious_full_false : ¬ C11_no_spurious_full := by
+  intro h
+  have h1 := congrArg Prod.snd (h 4 skipG skipG_init [] trivial 3)
+  revert h1
+  decide
+
+/-- with X > 0 the same processor behaves: the second read executes nothing -/
+example : (run 4 skipG [.setParam 0 5, .read 3, .read 3]).2 = [(2, 1), (3, 1)] := by decide
+
 /-! ### non-vacuity: a diamond over two parameters with a shared node and an array port -/
 
 def sum3 : List (Option Nat) → List (List Nat) → List Nat → Nat := fun _ _ vs => vs.foldl (· + ·) 1
@@ -253,6 +348,16 @@ theorem diamond_init : Init 5 diamond := by
     rfl
   | n+5 => simp [diamond] at hs
 
+theorem diamond_readsAll : ReadsAll diamond := by
+  intro i s hs
+  match i with
+  | 0 | 1 => simp [diamond] at hs
+  | 2 | 3 | 4 =>
+    simp only [diamond, mk, Node.struct.injEq] at hs
+    subst hs
+    rfl
+  | n+5 => simp [diamond] at hs
+
 def history : List (Op Nat) :=
   [.read 4, .setParam 0 9, .read 3, .setInput 3 1 (some 1), .arrayRemove 4 0 0, .read 4, .arrayAdd 4 0 3, .read 4]
 
@@ -263,7 +368,7 @@ theorem history_valid : Valid 5 diamond history := by
   rcases hop with rfl | rfl | rfl | rfl | rfl | rfl | rfl | rfl <;> simp [opRanked, rk]
 
 example : val (step 5 (run 5 diamond history).1 (.read 4)).1 4 = Spec 5 (run 5 diamond history).1 4 :=
-  read_fresh diamond diamond_init history history_valid 4
+  read_fresh diamond diamond_init diamond_readsAll history history_valid 4
 
 example : (run 5 diamond history).2 = [(2, 1), (3, 1), (4, 1), (2, 2), (3, 2), (3, 3), (4, 2), (4, 3)] := by decide
 
